@@ -291,7 +291,8 @@ def run_cases(ctx, cases, n_mut=2):
             got = sorted(n.id for n in graph.get_nodes_by_name(q))
             want = sorted(m["id"] for m in x["nodes"] if gl.name_matches(q, m["name"]))
             if got != want:
-                ctx.violate("name-lookup-not-exact", f"get_nodes_by_name({q}) = {got[:3]}…, contiguous matches are "
+                ctx.violate("double-clone" if double_clone(x) else "name-lookup-not-exact",
+                            f"get_nodes_by_name({q}) = {got[:3]}…, contiguous matches are "
                             f"{want[:3]}…", dict(case))
         muts = [mutate_graph(ctx.rng, x) for _ in range(n_mut)]
         start = len(lines)
